@@ -50,9 +50,9 @@ def seeded_work(policy):
 
 def run(ctx: Ctx) -> None:
     names = [n for n, e in evo.cat().items() if e.get("gens")]
-    b = evo.closure_explore(ctx, names, {"C16"}, depth=2 if ctx.quick else 3, frontier_cap=16 if ctx.quick else 40, run_cap=200 if ctx.quick else 600)
+    b = evo.closure_explore(ctx, names, {"C16"}, depth=2 if ctx.quick else 3, frontier_cap=16 if ctx.quick else 24, run_cap=200 if ctx.quick else 300)
     ctx.log(f"closure: {b}")
-    c = evo.loop_explore(ctx, names, {"C16"}, bound=1 if ctx.quick else 2, cap=2500 if ctx.quick else 40000)
+    c = evo.loop_explore(ctx, names, {"C16"}, bound=1 if ctx.quick else 2, cap=2500 if ctx.quick else 10000)
     ctx.log(f"loop: { {k: v for k, v in c.items() if k != 'choice_points_default'} }")
     # the generator whose value does not fit its rule must raise, under every resolution
     spec = build(BAD)
